@@ -1,6 +1,7 @@
 package main
 
 import (
+	"golang.org/x/tools/go/ssa"
 	"encoding/json"
 	"fmt"
 	"os"
@@ -80,6 +81,11 @@ func main() {
 		os.Exit(cmdDump(o, rest[0]))
 	case "list":
 		os.Exit(cmdList(o))
+	case "sites":
+		if len(rest) < 1 {
+			usage()
+		}
+		os.Exit(cmdSites(o, rest[0]))
 	default:
 		usage()
 	}
@@ -148,7 +154,7 @@ func cmdDump(o opts, name string) int {
 	for _, m := range e.specErrors {
 		fmt.Println("SPEC ERROR:", m)
 	}
-	dir := filepath.Join(os.TempDir(), "govc-dump")
+	dir := filepath.Join(os.TempDir(), "govc-dump", sanitizeFile(name))
 	os.RemoveAll(dir)
 	to := 10
 	if o.timeout > 0 {
@@ -285,4 +291,44 @@ func contractServes(c *Contract, prop string) bool {
 		}
 	}
 	return false
+}
+
+// cmdSites prints call-site and return ordinals of a function (for writing assert_at clauses).
+func cmdSites(o opts, name string) int {
+	e := mustLoad(o)
+	fn := e.fnByName[name]
+	if fn == nil {
+		fmt.Println("no such function")
+		return 2
+	}
+	counts := map[string]int{}
+	rets := 0
+	loops := 0
+	for _, b := range fn.Blocks {
+		for _, s := range b.Succs {
+			if s.Dominates(b) {
+				loops++
+			}
+		}
+		for _, ins := range b.Instrs {
+			pos := e.prog.Fset.Position(ins.Pos())
+			switch x := ins.(type) {
+			case *ssa.Call:
+				d := staticDisplay(&x.Call)
+				if strings.Contains(d, "zerolog") || strings.HasPrefix(d, "builtin.") {
+					continue
+				}
+				counts[d]++
+				fmt.Printf("%5d  call   %s#%d\n", pos.Line, d, counts[d])
+			case *ssa.Defer:
+				d := staticDisplay(&x.Call)
+				counts[d]++
+				fmt.Printf("%5d  defer  %s#%d\n", pos.Line, d, counts[d])
+			case *ssa.Return:
+				rets++
+				fmt.Printf("%5d  return#%d\n", pos.Line, rets)
+			}
+		}
+	}
+	return 0
 }
